@@ -1,7 +1,8 @@
 /-
   C15 — carrier independence.  The theorems are about the *branch logic* of the normalisation:
-  every well-formed carrier outside the class of known finding F-11 normalises to its logical
-  series, so any test composed with the normalisation factors through the denotation.  That
+  every carrier normalises to its logical series (since the repair of finding F-11 also a
+  masked array with finite numbers under its mask), so any test composed with the normalisation
+  factors through the denotation.  That
   numpy / pandas coercions behave as `normalize` / `mapdates` say is checked by the
   correspondence run (all carriers of one logical case on the real functions), not proved.
 -/
@@ -26,22 +27,29 @@ theorem zipWith_mask_id (d : List V) (m : List Bool)
       refine ⟨?_, ih bs h.2 (by simpa using hl)⟩
       cases b <;> cases x <;> simp_all
 
-/-- C15 (data), partial: outside the F-11 class the normalisation returns the logical series. -/
+/-- C15 (data): every carrier normalises to its logical series (no hypothesis: since the repair
+    of F-11 the mask of a masked array is honoured whatever lies under it). -/
+theorem C15_data (c : DataCarrier) : c.normalize = c.denote := by
+  cases c <;> rfl
+
+/-- The behaviour before the repair, kept as a regression witness: outside the F-11 class the old
+    normalisation agreed with the logical series … -/
 theorem C15_data_partial (c : DataCarrier) (hw : c.wf = true) (hb : c.Bad = false) :
-    c.normalize = c.denote := by
+    c.normalizeOld = c.denote := by
   cases c with
   | pySeq cs => rfl
   | floatArr xs => rfl
   | maskedArr d m =>
-    simp only [DataCarrier.normalize, DataCarrier.denote]
+    simp only [DataCarrier.normalizeOld, DataCarrier.denote]
     simp only [DataCarrier.wf, beq_iff_eq] at hw
     exact (zipWith_mask_id d m (by simpa [DataCarrier.Bad] using hb) hw).symm
 
-/-- FULL STATEMENT (not provable of the current code): `∀ c, c.wf → c.normalize = c.denote`.
-    Witness of the F-11 class: a masked cell holding 7.25 is evaluated as 7.25. -/
+/-- … and inside it it did not: a masked cell holding 7.25 was evaluated as 7.25 (finding F-11,
+    fixed in /repo by 7910c95). -/
 theorem C15_data_bad_witness :
-    ∃ c : DataCarrier, c.wf = true ∧ c.Bad = true ∧ c.normalize ≠ c.denote :=
-  ⟨.maskedArr [some 1, some (29/4)] [false, true], by decide +kernel, by decide +kernel, by decide +kernel⟩
+    ∃ c : DataCarrier, c.wf = true ∧ c.Bad = true ∧ c.normalizeOld ≠ c.denote ∧ c.normalize = c.denote :=
+  ⟨.maskedArr [some 1, some (29/4)] [false, true], by decide +kernel, by decide +kernel, by decide +kernel,
+   by decide +kernel⟩
 
 /-- C15 (times): `mapdates` returns the instants the carrier denotes, for every carrier kind. -/
 theorem C15_time (c : TimeCarrier) : c.mapdates = c.denote := by
@@ -51,10 +59,9 @@ theorem C15_time (c : TimeCarrier) : c.mapdates = c.denote := by
     through what they denote — two carriers of the same logical series and instants give the same
     result (all tests, any parameters). -/
 theorem C15_factor {β : Type} (f : List V → List Int → β) (d1 d2 : DataCarrier) (t1 t2 : TimeCarrier)
-    (hw1 : d1.wf = true) (hw2 : d2.wf = true) (hb1 : d1.Bad = false) (hb2 : d2.Bad = false)
     (hd : d1.denote = d2.denote) (ht : t1.denote = t2.denote) :
     f d1.normalize t1.mapdates = f d2.normalize t2.mapdates := by
-  rw [C15_data_partial d1 hw1 hb1, C15_data_partial d2 hw2 hb2, C15_time, C15_time, hd, ht]
+  rw [C15_data d1, C15_data d2, C15_time, C15_time, hd, ht]
 
 /-- The observation-level predicate holds of the model: one logical call gives one result, which
     conforms to the specification, however many carriers deliver it. -/
